@@ -66,7 +66,8 @@ func (w vhPoolStatusWriter) Update(_ context.Context, obj client.Object, _ ...cl
 // done.
 func VerifPoolStatus() {
 	api := &vhPoolAPI{pool: &v1beta1.IPAddressPool{ObjectMeta: metav1.ObjectMeta{Name: "p0", Namespace: "metallb-system"}}}
-	api.pool.Status = v1beta1.IPAddressPoolStatus{AssignedIPv4: int64(vr.Byte() & 3)}
+	// the status published so far is arbitrary (an earlier state of the pool)
+	api.pool.Status = v1beta1.IPAddressPoolStatus{AssignedIPv4: int64(vr.Byte() & 3), AvailableIPv4: int64(vr.Byte() & 3), AssignedIPv6: int64(vr.Byte() & 1), AvailableIPv6: int64(vr.Byte() & 3)}
 	c := allocator.PoolCounters{AssignedIPv4: int64(vr.Byte() & 3), AvailableIPv4: int64(vr.Byte() & 3), AssignedIPv6: int64(vr.Byte() & 1), AvailableIPv6: int64(vr.Byte() & 1)}
 	api.failing = vr.Choose(3)
 	api.kind = vr.Choose(2)
